@@ -26,6 +26,7 @@ type connection struct {
 	joinFunc             func(message *Message, activeChan chan<- *ActiveMessage) (string, error)
 	leaveFunc            func(key string)
 	key                  string
+	joined               bool // 加入成功过才在结束时leave 否则没加入的连接(包括key重复被拒绝的)会把key为空串的在线会话删掉
 	filter               bool
 	terminalEvent        TerminalEventer
 }
@@ -110,6 +111,7 @@ func (c *connection) reader() {
 						if err == nil {
 							join = true
 							c.key = key
+							c.joined = true
 						}
 						c.terminalEvent.OnJoinEvent(msg, key, err)
 						if errors.Is(err, _errKeyExist) {
@@ -162,7 +164,9 @@ func (c *connection) write() {
 
 func (c *connection) stop() {
 	c.stopOnce.Do(func() {
-		c.leaveFunc(c.key)
+		if c.joined {
+			c.leaveFunc(c.key)
+		}
 		c.terminalEvent.OnLeaveEvent(c.key)
 		close(c.stopChan)
 		_ = c.conn.Close()
